@@ -119,8 +119,8 @@ func (p *proxy) call(ctx erpc.UnknownCallCtx) (interface{}, *erpc.Status) {
 	}
 	stat := callcmd.Status()
 	if !stat.OK() && stat.Code() < 200 && stat.Code() > 99 {
-		stat.SetCode(erpc.CodeBadGateway)
-		stat.SetMsg(erpc.CodeText(erpc.CodeBadGateway))
+		// annotate a copy: stat may be one of the framework's shared predefined statuses
+		stat = erpc.NewStatus(erpc.CodeBadGateway, erpc.CodeText(erpc.CodeBadGateway), stat.Cause())
 	}
 	return result, stat
 }
@@ -143,8 +143,8 @@ func (p *proxy) push(ctx erpc.UnknownPushCtx) *erpc.Status {
 	label.ServiceMethod = ctx.ServiceMethod()
 	stat := p.pushForwarder(&label).Push(label.ServiceMethod, ctx.InputBodyBytes(), settings...)
 	if !stat.OK() && stat.Code() < 200 && stat.Code() > 99 {
-		stat.SetCode(erpc.CodeBadGateway)
-		stat.SetMsg(erpc.CodeText(erpc.CodeBadGateway))
+		// annotate a copy: stat may be one of the framework's shared predefined statuses
+		stat = erpc.NewStatus(erpc.CodeBadGateway, erpc.CodeText(erpc.CodeBadGateway), stat.Cause())
 	}
 	return stat
 }
